@@ -114,7 +114,13 @@ def unpack_float80(b: bytes) -> str:
     q = struct.unpack(">Q", b[2:10])[0]
     m = (q*2.0)/(1<<64)
     
-    value = '%s'%(m*pow(2, e - 16383))
+    sign = ''
+    if e >= 0x8000:
+        # The most significant bit is the sign, not part of the exponent
+        sign = '-'
+        e = e - 0x8000
+    
+    value = sign + '%s'%(m*pow(2, e - 16383))
     
     return value
 
